@@ -8,6 +8,7 @@ import (
 	quotaResource "lunar/engine/streams/resources/quota"
 	resourceUtils "lunar/engine/streams/resources/utils"
 	"lunar/toolkit-core/network"
+	"slices"
 
 	"github.com/rs/zerolog/log"
 )
@@ -69,14 +70,17 @@ func (rm *ResourceManagement) OnRequestDrop(APIStream publicTypes.APIStreamI) {
 		log.Debug().Msgf("Could not locate quota resource with ID %s", APIStream.GetID())
 		return
 	}
-	quotaObj, ok := outVal.(publicTypes.QuotaResourceI)
+	quotaObjs, ok := outVal.([]publicTypes.QuotaResourceI)
 	if !ok {
 		log.Debug().Msgf("Could not convert quota resource with ID %s", APIStream.GetID())
 		return
 	}
 
-	if err := (quotaObj).Dec(APIStream); err != nil {
-		log.Warn().Err(err).Msgf("Failed to decrement quota for request %s", APIStream.GetID())
+	// A dropped request gives back what it holds in every quota it asked, not only the first
+	for _, quotaObj := range quotaObjs {
+		if err := (quotaObj).Dec(APIStream); err != nil {
+			log.Warn().Err(err).Msgf("Failed to decrement quota for request %s", APIStream.GetID())
+		}
 	}
 }
 
@@ -98,8 +102,13 @@ func (rm *ResourceManagement) GetQuota(
 	}
 
 	if reqID != "" {
-		if !rm.reqIDToQuota.Exists(reqID) {
-			if err := rm.reqIDToQuota.Set(reqID, quotaObj); err != nil {
+		var asked []publicTypes.QuotaResourceI
+		if outVal, errGet := rm.reqIDToQuota.Get(reqID); errGet == nil {
+			asked, _ = outVal.([]publicTypes.QuotaResourceI)
+		}
+		if !slices.Contains(asked, quotaObj) {
+			asked = append(asked, quotaObj)
+			if err := rm.reqIDToQuota.Set(reqID, asked); err != nil {
 				log.Debug().Err(err).
 					Msgf("Failed to set quota resource with ID %s for request %s", quotaID, reqID)
 			}
